@@ -529,7 +529,9 @@ func showSnapSafe(mode string, w *fsWorld, r string) string {
 }
 
 // ---- generator -----------------------------------------------------------------
-var fsNames = []string{"a", "b", "c"}
+// "ab" has "a" as a strict prefix: sibling names in a prefix relation exercise the string-prefix decisions of the
+// walk (PathIterator.ReplacePart restart, rename-into-itself)
+var fsNames = []string{"a", "b", "ab"}
 var fsPerms = []uint32{0, 0o600, 0o644, 0o755, 0o777, 0o700, 0o750, 0o555, uint32(fs.ModeSticky) | 0o777, uint32(fs.ModeSetgid) | 0o755}
 var fsData = []string{"", "x", "hello", "0123456789012345678901234567890123456789"}
 var fsUsers = [][3]int{{0, 0, 1}, {1000, 1000, 0}, {1001, 1000, 0}, {1002, 1002, 0}}
